@@ -279,6 +279,17 @@ impl LineIndex {
     }
 }
 
+/// Read-only view of the lookup cache for the external verification harness.
+#[cfg(feature = "verif-hooks")]
+impl LineIndex {
+    /// `(offset, line_idx, line_start)` of the cached lookup, if any.
+    pub fn verif_cache(&self) -> Option<(u32, u32, u32)> {
+        self.cache
+            .get()
+            .map(|e| (e.offset, e.line_idx, e.line_start))
+    }
+}
+
 #[cfg(test)]
 mod tests {
     use super::*;
